@@ -121,6 +121,7 @@ def run(rep: vk.Report):
 
     keep = []
     param_updates = 0
+    alias_probes = [0]
     for g, e, V in sources():
         r = g.rng if g is not None else random.Random(rng.random())
         if V is None:
@@ -150,6 +151,22 @@ def run(rep: vk.Report):
         trees.add(f"({te}, {ser.lst(ser.s(nm) for nm in names)}, {ser.lst(ser.lst(row) for row in th)}, {ser.s(hf.__name__)})",
                   {"V": names, "path": hf.__name__, "expr": repr(e)[:300]})
         keep.append((e, V, hf))
+        # call history with the caller's array reused: the same float64 array updated in place between two calls (a solver's
+        # iterate), and the first matrix kept while the second is computed; the reference is a SECOND compilation of the same object
+        if r.random() < 0.5:
+            pa_, pb_ = common.pick_point(r, names), common.pick_point(r, names)
+            xa_, xb_ = [pa_[nm] for nm in names], [pb_[nm] for nm in names]
+            try:
+                with warnings.catch_warnings():
+                    warnings.simplefilter("ignore")
+                    hf2 = AD.compile_hessian(e, V)
+                    bad_ = common.alias_probe(hf, xa_, xb_, hf2, rtol=1e-12)
+                alias_probes[0] += 1
+                if bad_:
+                    rep.violation({"kind": "history", "obligation": "the compiled Hessian answers for the point it is given, whatever it was given before",
+                                   "witness": dict(bad_, expr=repr(e)[:300], V=names)}, concrete=True)
+            except Exception:
+                pass
         params = common.params_of(e)
         for rnd in range(3 if params else 2):
             if rnd == 2:
@@ -219,6 +236,7 @@ def run(rep: vk.Report):
         rep.violation({"kind": "numeric", "obligation": "compiled Hessian entry within the enclosure of the model's second derivative",
                        "case": nums[i][:3000], "witness": nmeta[i]}, concrete=True)
     cov = rep.coverage
+    cov["call_histories_with_the_point_array_updated_in_place"] = alias_probes[0]
     cov["derivatives_of_formulas_as_written_vs_finite_differences"] = wd_checked
     cov["derivatives_of_formulas_as_written_disagreements"] = wd_bad
     cov["evaluations"] = len(trees.terms) + len(nums)
